@@ -433,6 +433,23 @@ def tds_case(ctx, c):
     if not ts_ok:
         ctx.fail('nan_in_stored_series', dict(case=brief), sig=sig)
         return
+    # the documented stability criterion, recomputed from the stored series: spread of the rotor angles of all
+    # synchronous machines above the configured limit at an accepted step
+    tripped = None
+    if cfg['criteria'] and ss.SynGen.n >= 2 and ts_ok:
+        try:
+            da = np.array([int(a) for a in ss.SynGen.delta_addr], dtype=int)
+            xs = np.asarray(dae.ts.x)
+            if xs.ndim == 2 and xs.shape[0] and len(da) >= 2:
+                spread = np.max(xs[:, da], axis=1) - np.min(xs[:, da], axis=1)
+                lim = np.deg2rad(float(tds.config.ddelta_limit))
+                tripped = bool(np.any(spread[:-1] > lim * 1.02)) if len(spread) > 1 else False
+                ctx.count('tds:criterion_%s' % ('tripped' if tripped else 'not_tripped'))
+        except Exception:
+            tripped = None
+    if ret and tripped:
+        ctx.fail('success_although_stability_criterion_tripped', dict(case=brief, limit_deg=float(tds.config.ddelta_limit)), sig=sig)
+        return
     if ret:
         if tds.busted or not reached or not state_ok:
             ctx.fail('success_without_valid_result', dict(case=brief, busted=bool(tds.busted), t_end=t_end, tf=float(tds.config.tf), finite=state_ok), sig=sig)
